@@ -99,6 +99,9 @@ Fixpoint replace_nth {A} (n : nat) (x : A) (l : list A) : list A :=
 Definition slice_store (l : list value) (n : nat) (v zero : value) : list value :=
   if (n <? length l)%nat then replace_nth n v l else l ++ repeat zero (n - length l) ++ [v].
 
+(* the list the destination holds after  copy(dst, src) : every element of the source is stored, a longer destination keeps its tail *)
+Definition copy_store (ls ld : list value) : list value := ls ++ skipn (length ls) ld.
+
 Definition set_slice (id : nat) (l : list value) : R unit :=
   fun s => Done tt (mkS (s_globals s) (s_frame s) (replace_nth id l (s_heap s)) (s_funcs s) (s_files s) (s_out s) (s_stdin s)).
 
@@ -240,7 +243,7 @@ Section Run.
             | VSlice d, VSlice sid =>
                 ld <- get_slice d ;; ls <- get_slice sid ;;
                 (* every element of the source is stored, a longer destination keeps its tail; the count is the source's length *)
-                set_slice d (ls ++ skipn (length ls) ld) ;;; rret [Imm (VInt (Z.of_nat (length ls)))]
+                set_slice d (copy_store ls ld) ;;; rret [Imm (VInt (Z.of_nat (length ls)))]
             | _, _ => undef
             end
         | EItoa x =>
